@@ -36,6 +36,10 @@ SumSizes(S) == IF S = {} THEN 0 ELSE LET r == CHOOSE x \in S : TRUE IN r.size + 
 RECURSIVE SumPackLens(_)
 SumPackLens(S) == IF S = {} THEN 0 ELSE LET r == CHOOSE x \in S : TRUE IN r.len + SumPackLens(S \ {r})
 
+(* packs are filled in order: an entry made later never lies in a lower-numbered pack than an entry made earlier
+   (index ids grow with every insertion; histories without repack) *)
+FilledInOrder(o) == \A r1, r2 \in Rows(o) : r1.id < r2.id => r1.p <= r2.p
+
 MaxEnd(S) == IF S = {} THEN 0 ELSE LET e == {r.off + r.len : r \in S} IN CHOOSE m \in e : \A x \in e : x <= m
 
 -----------------------------------------------------------------------------
